@@ -55,7 +55,7 @@ fn consensus_deser(data: &[u8]) -> Option<Vec<u8>> {
 fn chk_deser(data: &[u8]) -> Option<Value> {
     let t = tool_deser(data);
     let c = consensus_deser(data);
-    let bad = match (&t, &c) { (Some(tv), Some(cv)) => tv != cv, (Some(_), None) => true, _ => false };
+    let bad = match (&t, &c) { (Some(tv), Some(cv)) => tv != cv, (Some(_), None) => true, (None, Some(_)) => true, _ => false };
     if bad {
         Some(hit(json!({"bytes": data}), format!("consensus: {:?}", c), format!("tool: {:?}", t), "sexp_from_stream vs clvmr node_from_bytes on the same bytes"))
     } else { None }
@@ -107,6 +107,13 @@ fn deser_inputs() -> Vec<Vec<u8>> {
             d.extend(tail);
             v.push(d);
         }
+    }
+    // structure: every byte string of length <= 4 over a boundary alphabet (pairs with complete / truncated / malformed wings,
+    // nested pairs, trailing bytes); seed C08-d returned the left wing of a pair whose right wing is broken
+    let alpha: [u8; 11] = [0x00, 0x01, 0x05, 0x7f, 0x80, 0x81, 0x82, 0xbf, 0xc0, 0xfe, 0xff];
+    for a0 in alpha { v.push(vec![a0]); for a1 in alpha { v.push(vec![a0, a1]); for a2 in alpha { v.push(vec![a0, a1, a2]); for a3 in alpha { v.push(vec![a0, a1, a2, a3]); } } } }
+    for hex in ["ff8568656c6c6fc0", "ff8568656c6c6f8361", "ffff018568656c6c6fff02ff0380", "ffff018568656c6c6fff02ff03", "ffff018568656c6c6fff02", "ffffff01ff02ff03ff04ff0580", "ffff0102ffff0304ff0506"] {
+        v.push((0..hex.len() / 2).map(|i| u8::from_str_radix(&hex[2 * i..2 * i + 2], 16).unwrap()).collect());
     }
     // every length class, exact / truncated
     for n in [0usize, 1, 0x3f, 0x40, 0x1fff, 0x2000, 0xfffff, 0x100000] {
@@ -201,7 +208,9 @@ fn stepper_programs() -> Vec<Vec<u8>> {
     // ran (op) as a program to obtain an operator)
     for t in ["((16) 2 5)", "((4) 2 5)", "((5) (7 . 8))", "((6) (7 . 8))", "((q) . 5)", "((q) 5)", "((a) (q . 1) 7)", "((a) 1 7)", "((a) 1)", "((i) 0 5 6)", "((i) 1 5 6)", "((i) 1 5)",
               "(((16)) 2 5)", "((16 . 1) 2 5)", "((16 . 0) (q . 2) (q . 5))", "((11) 2 5)", "(c (q . 9) ((16) 2 5))", "((0x0004) 2 5)", "((\"+\") 2 5)", "((()) 2 5)", "((16))", "((4) 2)",
-              "((16) 2 5 . 1)", "((a) 1 7 . 1)", "((4) 2 5 . 1)"] {
+              "((16) 2 5 . 1)", "((a) 1 7 . 1)", "((4) 2 5 . 1)",
+              // (op) must hold exactly one element (finding F27, second part: ((4 1) 2 3) is an error for the consensus evaluator)
+              "((4 1) 2 3)", "((16 7 8) 2 3)", "((5 9) (7 . 8))", "((4 . 1) 2 3)", "((16 . (7 . 8)) 2 3)", "((a (q . 1)) 1 7)"] {
         if let Some(b) = asm_bytes(t) { v.push(b); }
     }
     v
@@ -472,6 +481,48 @@ fn chk_modern_print(clvm_bytes: &[u8]) -> Option<Value> {
     }
 }
 
+// the program text printed for a compilation (what `run` shows) is read back, by the modern reader and by the classic assembler,
+// to the bytes the library entry point emits for the same compilation
+fn chk_modern_print_program(src: &str) -> Option<Value> {
+    use chialisp::classic::clvm_tools::binutils::assemble;
+    use chialisp::classic::clvm_tools::clvmc::compile_clvm_text_maybe_opt;
+    use chialisp::classic::clvm_tools::comp_input::RunAndCompileInputData;
+    use chialisp::classic::platform::argparse::ArgumentValue;
+    use chialisp::compiler::clvm::{convert_to_clvm_rs, NewStyleIntConversion};
+    use chialisp::compiler::compiler::DefaultCompilerOpts;
+    use chialisp::compiler::comptypes::CompilerOpts;
+    use chialisp::compiler::sexp::parse_sexp;
+    use chialisp::compiler::srcloc::Srcloc;
+    use std::collections::HashMap;
+    use std::rc::Rc;
+    let text_src = src.to_string();
+    let res = catch_unwind(move || {
+        let mut a = clvmr::Allocator::new();
+        // the bytes the library / file-writing entry point emits
+        let opts: Rc<dyn CompilerOpts> = Rc::new(DefaultCompilerOpts::new("*command*"));
+        let mut syms = HashMap::new();
+        let want = compile_clvm_text_maybe_opt(&mut a, false, opts, &mut syms, &text_src, "*command*", false).ok()
+            .and_then(|n| clvmr::serde::node_to_bytes(&a, n).ok())?;
+        // the text the command-line compiler prints (launch_tool: compile_modern(..).to_string())
+        let mut args: HashMap<String, ArgumentValue> = HashMap::new();
+        args.insert("path_or_code".to_string(), ArgumentValue::ArgString(None, text_src.clone()));
+        let printed = RunAndCompileInputData::new(&mut a, &args).ok().and_then(|d| { let mut s2 = HashMap::new(); d.compile_modern(&mut a, &mut s2).ok() })?;
+        let text = printed.to_string();
+        let _mode = NewStyleIntConversion::new(true);
+        let modern = parse_sexp(Srcloc::start("*replay*"), text.bytes()).ok().and_then(|v| v.first().cloned())
+            .and_then(|s| convert_to_clvm_rs(&mut a, s).ok()).and_then(|m| clvmr::serde::node_to_bytes(&a, m).ok());
+        if modern.as_ref() != Some(&want) { return Some((text, format!("modern reader gave {:?}, the library emits {:?}", modern, want))); }
+        let classic = assemble(&mut a, &text).ok().and_then(|m| clvmr::serde::node_to_bytes(&a, m).ok());
+        if classic.as_ref() != Some(&want) { return Some((text, format!("classic assembler (brun, opc) gave {:?}, the library emits {:?}", classic, want))); }
+        None
+    });
+    match res {
+        Ok(Some((text, o))) => Some(hit(json!({"program": src}), format!("printed program text {:?} reads back to the bytes the library emits", text), o, "compile_file -> SExp Display -> parse_sexp / binutils::assemble vs convert_to_clvm_rs")),
+        Err(_) => Some(hit(json!({"program": src}), "no panic".into(), "panic".into(), "compile / print / read panicked")),
+        _ => None,
+    }
+}
+
 // a QuotedString constant (as the compiler keeps source strings and printable hex constants) printed by the modern
 // printer is read back to the same bytes by the modern reader and by the classic assembler
 fn chk_modern_print_quoted(kind: u8, body: &[u8]) -> Option<Value> {
@@ -502,7 +553,63 @@ fn chk_modern_print_quoted(kind: u8, body: &[u8]) -> Option<Value> {
 }
 
 // ---- front ends never panic: all short texts over a hostile alphabet, all short byte strings
+// ---- watchdog for the no-panic sweep: the sweep runs in a child process that notes the input it is working on; the parent reports an
+// input on which the child makes no progress (endless loop) or dies (abort, stack overflow) -- neither can be caught in-process
+thread_local! { static PROGRESS: std::cell::RefCell<Option<(std::fs::File, u64)>> = std::cell::RefCell::new(None); }
+fn progress_note(kind: &str, data: &[u8]) {
+    use std::io::{Seek, SeekFrom, Write};
+    PROGRESS.with(|p| { if let Some((f, n)) = p.borrow_mut().as_mut() {
+        *n += 1;
+        let line = format!("{} {} {}\n", n, kind, data.iter().map(|b| format!("{:02x}", b)).collect::<String>());
+        let _ = f.seek(SeekFrom::Start(0)); let _ = f.write_all(line.as_bytes()); let _ = f.write_all(&[b' '; 64]);
+    } });
+}
+fn no_panic_supervised(seed: u64) -> Option<Value> {
+    use std::io::Read;
+    let path = std::env::temp_dir().join(format!("verif_replay_progress_{}", std::process::id()));
+    let _ = std::fs::write(&path, b"0 start \n");
+    let exe = match std::env::current_exe() { Ok(e) => e, Err(_) => return None };
+    let mut child = match std::process::Command::new(exe).args(["search", "no_panic", &seed.to_string()]).env("VERIF_NOPANIC_CHILD", &path)
+        .stdout(std::process::Stdio::piped()).stderr(std::process::Stdio::null()).spawn() { Ok(c) => c, Err(_) => return None };
+    let read_progress = || -> (u64, String, Vec<u8>) {
+        let t = std::fs::read_to_string(&path).unwrap_or_default();
+        let mut it = t.lines().next().unwrap_or("").split_whitespace();
+        let n = it.next().and_then(|x| x.parse().ok()).unwrap_or(0);
+        let kind = it.next().unwrap_or("").to_string();
+        let hx = it.next().unwrap_or("");
+        let data = (0..hx.len() / 2).filter_map(|i| u8::from_str_radix(&hx[2 * i..2 * i + 2], 16).ok()).collect();
+        (n, kind, data)
+    };
+    let mut last = (0u64, std::time::Instant::now());
+    let mut out = String::new();
+    let verdict = loop {
+        match child.try_wait() {
+            Ok(Some(st)) => {
+                if let Some(mut o) = child.stdout.take() { let _ = o.read_to_string(&mut out); }
+                if st.code().is_some() { break None; }
+                let (_, kind, data) = read_progress();
+                break Some(hit(json!({"kind": kind, "text_bytes": data}), "result or error".into(), "the process died on a signal (abort / stack overflow)".into(), "no-panic sweep in a child process"));
+            }
+            Ok(None) => {
+                let (n, kind, data) = read_progress();
+                if n != last.0 { last = (n, std::time::Instant::now()); }
+                else if last.1.elapsed().as_secs() >= 20 {
+                    let _ = child.kill(); let _ = child.wait();
+                    break Some(hit(json!({"kind": kind, "text_bytes": data}), "result or error".into(), "no return within 20 s (endless loop)".into(), "no-panic sweep in a child process"));
+                }
+                std::thread::sleep(std::time::Duration::from_millis(50));
+            }
+            Err(_) => break None,
+        }
+    };
+    let _ = std::fs::remove_file(&path);
+    match verdict {
+        Some(v) => Some(v),
+        None => out.lines().rev().find(|l| l.starts_with('{')).and_then(|l| serde_json::from_str::<Value>(l).ok()),
+    }
+}
 fn chk_no_panic_text(text: &[u8]) -> Option<Value> {
+    progress_note("text", text);
     use chialisp::classic::clvm_tools::binutils::assemble;
     use chialisp::compiler::sexp::parse_sexp;
     use chialisp::compiler::srcloc::Srcloc;
@@ -517,6 +624,7 @@ fn chk_no_panic_text(text: &[u8]) -> Option<Value> {
     None
 }
 fn chk_no_panic_bytes(data: &[u8]) -> Option<Value> {
+    progress_note("bytes", data);
     let d = data.to_vec();
     let r = catch_unwind(move || tool_deser(&d));
     match r { Ok(Some(v)) if v == b"<panic>".to_vec() => Some(hit(json!({"bytes": data}), "result or error".into(), "panic".into(), "sexp_from_stream")), Err(_) => Some(hit(json!({"bytes": data}), "result or error".into(), "panic".into(), "sexp_from_stream")), _ => None }
@@ -1627,6 +1735,10 @@ pub fn search(name: &str, seed: u64) -> Value {
             nf(&format!("{} token-level mutations (delete, duplicate, swap with the next, replace by a dot, truncate) of 6 valid programs compile to a result or an error", n))
         }
         "no_panic" => {
+            match std::env::var("VERIF_NOPANIC_CHILD") {
+                Err(_) => { if let Some(v) = no_panic_supervised(seed) { return v; } return nf("no-panic sweep: the supervised child process produced no result"); }
+                Ok(path) => { if let Ok(f) = std::fs::OpenOptions::new().write(true).create(true).open(&path) { PROGRESS.with(|p| *p.borrow_mut() = Some((f, 0))); } }
+            }
             let alpha: &[u8] = b"().\"'\\#;0xa-\n ";
             let n = alpha.len();
             let mut count = 0u64;
@@ -1664,7 +1776,17 @@ pub fn search(name: &str, seed: u64) -> Value {
                 nq += 1;
                 if let Some(v) = chk_modern_print_quoted(kind, &t) { return v; }
             } } }
-            nf(&format!("modern printed text is read back identically by parse_sexp and by the classic assembler on the enumerated values and on {} quoted-string constants (3 quote kinds x strings of <= 4 symbols over a ' \" x \\ space s)", nq))
+            let progs = [
+                "(mod (X) (include *standard-cl-24*) (list \"hello\" \"it's\" \"say \\\"hi\\\"\" 0x0000ff 0xff 0x00 -1 -129 255 65536 100000000000000000000000000000 X))",
+                "(mod (X) (include *standard-cl-24*) (defconstant K 0x00ff) (defun f (A) (c A (q . (1 2 \"three\" 0x04)))) (f (c K X)))",
+                "(mod (X) (include *standard-cl-24*) (list (q . foo) (q . (bar baz)) X))",
+                "(mod (X) (include *standard-cl-24*) (c (q . \"concat\") X))",
+                "(mod () (include *standard-cl-24*) (q . concat))",
+                "(mod (X) (include *standard-cl-24*) (list (q . a) (q . sha256) X))",
+                "(mod (X) (include *standard-cl-23.1*) (c (q . +) X))",
+            ];
+            for p in progs.iter() { if skipped(&json!({"program": p})) { continue; } if let Some(v) = chk_modern_print_program(p) { return v; } }
+            nf(&format!("modern printed text is read back identically by parse_sexp and by the classic assembler on the enumerated values, on {} quoted-string constants (3 quote kinds x strings of <= 4 symbols over a ' \" x \\ space s) and on the compiled text of {} programs with string / hex / negative / large / zero-prefixed literals and quoted symbols (recorded findings skipped)", nq, progs.len()))
         }
         "disassemble" | "ir_for_atom" | "has_oversized_sign_extension" | "consume_quoted" | "pybytes_repr" | "interpret_atom_value" | "assemble" => {
             for d in disasm_inputs() { if let Some(v) = chk_disasm(&d) { return v; } }
@@ -1720,7 +1842,7 @@ pub fn search(name: &str, seed: u64) -> Value {
 pub fn run_input(name: &str, input: &Value) -> Value {
     match name {
         "opt_levels" => chk_opt_levels(input["program"].as_str().unwrap_or(""), input["args"].as_str().unwrap_or("()")).unwrap_or_else(|| nf("input does not violate the contract on this tree")),
-        "modern_print" => chk_modern_print(&bytes(&input["clvm_bytes"])).unwrap_or_else(|| nf("input does not violate the contract on this tree")),
+        "modern_print" => (if let Some(p) = input["program"].as_str() { chk_modern_print_program(p) } else { chk_modern_print(&bytes(&input["clvm_bytes"])) }).unwrap_or_else(|| nf("input does not violate the contract on this tree")),
         "disassemble" | "ir_for_atom" | "consume_quoted" | "pybytes_repr" => chk_disasm(&bytes(&input["clvm_bytes"])).unwrap_or_else(|| nf("input does not violate the contract on this tree")),
         "advance" | "srcloc" => chk_advance(input["line"].as_u64().unwrap_or(1) as usize, input["col"].as_u64().unwrap_or(1) as usize, input["ch"].as_u64().unwrap_or(0) as u8).unwrap_or_else(|| nf("input does not violate the contract on this tree")),
         "convert_from_clvm_rs" | "convert_to_clvm_rs" | "convert" | "sha256tree" => chk_convert(&bytes(&input["clvm_bytes"])).unwrap_or_else(|| nf("input does not violate the contract on this tree")),
@@ -1733,6 +1855,7 @@ pub fn run_input(name: &str, input: &Value) -> Value {
         "repl" => { let defs: Vec<String> = input["definitions"].as_array().map(|a| a.iter().filter_map(|x| x.as_str().map(|s| s.to_string())).collect()).unwrap_or_default(); let dr: Vec<&str> = defs.iter().map(|s| s.as_str()).collect(); chk_repl(&dr, input["expression"].as_str().unwrap_or("")).unwrap_or_else(|| nf("input does not violate the contract on this tree")) }
         "cldb" => chk_cldb(&bytes(&input["program"]), input["env"].as_u64().unwrap_or(0) as u8).unwrap_or_else(|| nf("input does not violate the contract on this tree")),
         "compose_paths" => chk_compose_paths(&big(&input["p"]), &big(&input["q"])).unwrap_or_else(|| nf("input does not violate the contract on this tree")),
+        "modern_print_program" => chk_modern_print_program(input["program"].as_str().unwrap_or("")).unwrap_or_else(|| nf("input does not violate the contract on this tree")),
         "scoping" => chk_scope(input["ill_scoped"].as_str().unwrap_or(""), "Unbound|Duplicate|recurs|deadlock", input["repaired"].as_str().unwrap_or("()")).unwrap_or_else(|| nf("input does not violate the contract on this tree")),
         _ => nf("no replayer for this obligation"),
     }
